@@ -105,6 +105,15 @@ def check_refs(name, text, by_name, result, all_results):
                 src = v.split(':')[0]
                 if src.endswith('.volume') and ':' in v:
                     wanted.append(('volume', src, v))
+    # a Volume= whose name merely ends like a unit file of another type is a named volume: passed on as written, no dependency, no error about it
+    for v in refs.all_values(own, 'Volume') if ty in ('container', 'pod', 'build') else []:
+        if v.startswith('lookalike.'):
+            if result[0] == 'svc':
+                ex = ' '.join(x for k, x in result[2].get('Service', []) if k.startswith('Exec'))
+                if v not in ex or any('lookalike' in x for k, x in result[2].get('Unit', []) if k in ('Requires', 'After')):
+                    fails.append(f'Volume={v} names a volume, not a unit: it is passed on as written and adds no dependency: {ex[-300:]}')
+            elif result[0] == 'err' and 'lookalike.' in result[2]:
+                fails.append(f'Volume={v} names a volume, not a unit: no error about it: {result[2]!r}')
     if not wanted:
         return fails
     missing = [w for w in wanted if w[1] not in by_name]
